@@ -135,7 +135,7 @@ def make_run(cfg):
     install()
     n = cfg["n"]
     op_ = cfg.get("outlier_prob", 0.0)
-    data = oracle.make_data(n, grid=3, outlier_prob=op_)
+    data = oracle.make_data(n, grid=3, outlier_prob=op_, kind=cfg.get("data", "generic"))
 
     def run(rng):
         S.clear_caches(all_caches=True)
@@ -203,6 +203,11 @@ def main(tier, seed):
                 items.append((dict(n=3, history=list(h), mode=mode, cap=600), 1 if tier == "quick" else 2))
             else:
                 items.append((dict(n=2, history=list(h), mode=mode, cap=1500), 2))
+    # duplicated mutations: byte-identical sibling vectors, so children lists can differ in multiplicity only
+    for x in ("pg:bootstrap", "pg:semi-adapted", "pg:fully-adapted", "subtree:semi-adapted"):
+        for mode in ("run", "library"):
+            items.append((dict(n=3, history=[x, "prg", x], mode=mode, cap=1200, data="dup"), 1 if tier == "quick" else 2))
+            items.append((dict(n=4, history=[x], mode=mode, cap=1200, data="dup"), 1 if tier == "quick" else 2))
     # the shortest histories in which a stale entry could be served after a change: X, change, X
     if tier == "quick":
         for x in ("pg:bootstrap", "pg:semi-adapted", "pg:fully-adapted", "subtree:semi-adapted"):
